@@ -75,6 +75,20 @@ def verify_rules(prog, chk, pid):
     chk.require(ok, P("verification-equation"), fi.qualname, "x(u1*G + u2*Q) mod n == r, u1 = e*s^-1 mod n, u2 = r*s^-1 mod n", where, "the value compared with r is built from hash, r and the inverse of s as ECDSA prescribes", "returned verdict is not the ECDSA verification equation")
 
 
+def _is_retry_counter(ex, t) -> bool:
+    """the retry counter of the deterministic signer: a loop variable that starts at 0 and grows by one per retry, or the element of itertools.count() / count(0)"""
+    t = unsnap(t)
+    if t.op == "loopvar":
+        lr = ex.loops.get(t.args[0])
+        return lr is not None
+    if t.op == "elem":
+        it = unsnap(t.args[0])
+        if it.op == "call" and isinstance(it.args[0], Term) and it.args[0].op == "ext" and it.args[0].args[0] in ("itertools.count", "count"):
+            a = it.args[1]
+            return len(a) == 0 or (len(a) == 1 and is_const(a[0]) and cval(a[0]) == 0)
+    return False
+
+
 def sign_rules(prog, chk, pid):
     P = lambda s: "%s.%s" % (pid, s)
     fi, ex, res = _run(prog, "ecdsa.Private_key.sign")
@@ -89,17 +103,22 @@ def sign_rules(prog, chk, pid):
     chk.require(zero == 2, P("zero-guards"), fi.qualname, "r == 0 -> RSZeroError; s == 0 -> RSZeroError", where, "a signature with r = 0 or s = 0 is never returned", "found %d zero guards dominating the return (need 2)" % zero)
     fi, ex, res = _run(prog, "keys.SigningKey.sign_digest_deterministic")
     where = "%s:%d" % (fi.file, fi.lineno)
-    hend = [e for e in res.events if e.kind == "handler_end" and e.d["falls_through"]]
+    # handlers that do not re-raise (they fall through, or jump back to the loop head with `continue`): exactly one, and only for RSZeroError
+    import ast as _ast
+
+    hend = [e for e in res.events if e.kind == "handler_end" and (e.d["falls_through"] or (isinstance(e.node, _ast.ExceptHandler) and e.node.body and isinstance(e.node.body[-1], _ast.Continue)))]
     ok = len(hend) == 1 and all(c.endswith("RSZeroError") for c in hend[0].d["classes"])
-    loops = [lr for lr in ex.loops.values() if lr.kind == "while"]
-    inc = False
-    for lr in loops:
-        for nm, nxt in lr.next.items():
-            n = unsnap(nxt)
-            if nm == "retry_gen" or "retry" in nm:
-                inc = any(t.op == "bin" and t.args[0] == "Add" and is_const(t.args[2]) and cval(t.args[2]) == 1 for t in subterms(n))
     gk = [e for e in res.events if e.kind == "call" and e.d["callee"].name == "generate_k"]
-    okk = len(gk) == 1 and "retry_gen" in gk[0].d["kwargs"] and unsnap(gk[0].d["kwargs"]["retry_gen"]).op == "loopvar"
+    okk = len(gk) == 1 and "retry_gen" in gk[0].d["kwargs"] and _is_retry_counter(ex, gk[0].d["kwargs"]["retry_gen"])
+    inc = False
+    if okk:
+        rc = unsnap(gk[0].d["kwargs"]["retry_gen"])
+        if rc.op == "elem":
+            inc = True  # itertools.count() yields 0, 1, 2, ...: one step per iteration, i.e. per swallowed RSZeroError
+        else:
+            lr = ex.loops[rc.args[0]]
+            nxt = lr.next.get(rc.args[1])
+            inc = nxt is not None and any(t.op == "bin" and t.args[0] == "Add" and is_const(t.args[2]) and cval(t.args[2]) == 1 for t in subterms(unsnap(nxt))) and is_const(lr.init.get(rc.args[1], NONE)) and cval(lr.init[rc.args[1]]) == 0
     chk.require(ok and inc and okk, P("deterministic-retry"), fi.qualname, "retry only on RSZeroError, retry_gen += 1, fed to generate_k", where, "the deterministic nonce is re-derived with an incremented counter only when r or s was zero", "retry loop swallows other errors / does not advance retry_gen / does not pass it to generate_k")
 
 
@@ -184,7 +203,16 @@ def conversion_rules(prog, chk, pid):
     chk.require(ok, P("malformed->BadSignatureError"), fi.qualname, "except (UnexpectedDER, MalformedSignature): raise BadSignatureError", where, "decoder errors are converted to the documented BadSignatureError", "decoder errors are not converted to BadSignatureError")
     # verdict False -> raise
     rets = [e for e in res.events if e.kind == "return" and e.stack == (fi.qualname,)]
-    okv = len(rets) == 1 and is_const(unsnap(rets[0].d["value"])) and cval(unsnap(rets[0].d["value"])) is True and any(f[0] == "if" and f[2] and "verifies" in show(f[1], 4) for f in rets[0].ctx)
+    # the return happens under a positive verdict: inside `if verifies(...):` or after `if not verifies(...): raise` (path fact)
+    def positive_verdict(ev_):
+        known = [(f[1], bool(f[2])) for f in ev_.ctx if f[0] == "if"] + [(c, bool(p_)) for c, p_ in (getattr(ev_, "facts", ()) or ())]
+        for c, p_ in known:
+            r_ = rel(c, p_)
+            if r_[0] == "rel" and r_[1] == "Truthy" and "verifies" in show(r_[2], 4):
+                return True
+        return False
+
+    okv = len(rets) == 1 and is_const(unsnap(rets[0].d["value"])) and cval(unsnap(rets[0].d["value"])) is True and positive_verdict(rets[0])
     final = [e for e in res.events if e.kind == "raise" and str(e.d["exc"]).endswith("BadSignatureError") and not any(f[0] == "except" for f in e.ctx)]
     chk.require(okv and bool(final), P("false-verdict-raises"), fi.qualname, "verifies(...) -> True else raise BadSignatureError", where, "the only normal return is True under a positive verdict; otherwise BadSignatureError is raised", "a failed verification can return normally")
 
@@ -585,7 +613,7 @@ def hash_consistency_rules(prog, chk, pid):
         dterm = a[3]
         okd = "digest" in show(dterm, 5) and unsnap(sd[0].d["args"][1]) is dterm
         okk = unsnap(sd[0].d["kwargs"].get("k", NONE)) is unsnap(gk[0].d["result"])
-        okretry = "retry_gen" in kw and unsnap(kw["retry_gen"]).op == "loopvar"
+        okretry = "retry_gen" in kw and _is_retry_counter(ex, kw["retry_gen"])
         okextra = "extra_entropy" in kw and "extra_entropy" in show(kw["extra_entropy"], 5)
         ok = okorder and oksec and okh and okd and okk and okretry and okextra
         why = "generate_k arguments (order, secret, hash, digest = signed digest, k handed to sign_digest, retry counter, extra entropy) ok: %s" % ((okorder, oksec, okh, okd, okk, okretry, okextra),)
